@@ -5,7 +5,7 @@ from .. import extmodels as X
 from ..facets.lenclass import LenClass, is_def
 from ..ir import walk
 from ..loader import AnalysisError
-from .common import call_args, ext_name, is_ext_call, scatter_chain
+from .common import call_args, ext_name, is_ext_call, is_iterator_output, iterators_in, scatter_chain
 from .effects import attr_writes, root_kind, writes
 from .entries import EntryRuns
 
@@ -233,7 +233,7 @@ def r114_body(ck, R, I):
         r1 = R.runs.get("Taus.tau_energy", [None])[0]
         if r1 is None or r1.value is None:
             raise AnalysisError("Taus.tau_energy not analysed")
-        its = [n for n in walk([r1.value]) if n.op == "NdIter"]
+        its = iterators_in(r1.value)
         ck.floor("R11.4", len(its), 2, "buffered iterator loops reached from the tau stage")
         for sc in [n for n in walk([r1.value]) if n.op == "Scatter"]:
             v = sc.args[2]
@@ -242,10 +242,12 @@ def r114_body(ck, R, I):
                     v.args[1] if is_ext_call(v.args[2], "numpy.array") else v)
                 if v.op == "Phi" and not (is_ext_call(v.args[1], "numpy.array") or is_ext_call(v.args[2], "numpy.array")):
                     break
-            if any(x.op == "NdIter" for x in walk([v])) and sc.fn is not None and sc.fn.module.name.endswith("taus"):
+            if iterators_in(v) and sc.fn is not None and sc.fn.module.name.endswith("taus"):
                 b0, _ = scatter_chain(v)
-                ck.ob("R11.4", "the sampler returns the iterator's allocated operand (complete beyond the 8192-element "
-                      "buffer)", b0.op == "NdAlloc", sc, "grid_cdf_sampler.sample", f"returns {g.show(b0, 1)}")
+                ck.ob("R11.4", "the sampler returns the iterator's output operand - the array it allocated or was given - "
+                      "not a buffer chunk (complete beyond the 8192-element buffer)",
+                      is_iterator_output(I, b0, iterators_in(v)), sc, "grid_cdf_sampler.sample",
+                      f"returns {g.show(b0, 1)}")
 
 
 def _allow_key(f, node):
